@@ -116,20 +116,23 @@ Proof.
     exists mant, ex. split; [reflexivity|]. split; [apply L_mant; exact Hm | apply L_exp; exact He].
 Qed.
 
-(* the matcher on the whole pattern *)
-Theorem num_accepts s : accepts cm_RE_NUM s = true <-> float_grammar s.
+(* a whole-string pattern ^X\Z with X free of look-around and anchors accepts exactly the language of X *)
+Theorem anchored_accepts X s : plain X = true -> accepts (Seq AtStart (Seq X AtEndStrict)) s = true <-> L X s.
 Proof.
-  rewrite <- L_num_body, accepts_ends, num_shape.
+  intros Hp. rewrite accepts_ends.
   unfold st_init. change (ends (Seq AtStart ?x) (St 0 [] s) []) with (ends x (St 0 [] s) [] ++ []). rewrite app_nil_r, ends_seq.
-  assert (Hiff : flat_map (fun sc => ends AtEndStrict (fst sc) (snd sc)) (ends (Grp 1 NUM_BODY) (St 0 [] s) []) <> [] <-> L NUM_BODY s).
+  assert (Hiff : flat_map (fun sc => ends AtEndStrict (fst sc) (snd sc)) (ends X (St 0 [] s) []) <> [] <-> L X s).
   { rewrite <- filter_end_nonempty. split.
-    - intros (st' & c' & Hin & He). destruct (ends_sound (Grp 1 NUM_BODY) eq_refl _ _ _ _ Hin) as (w & (A & _ & _) & Hl).
+    - intros (st' & c' & Hin & He). destruct (ends_sound X Hp _ _ _ _ Hin) as (w & (A & _ & _) & Hl).
       cbn [after] in A. rewrite He, app_nil_r in A. subst w. exact Hl.
     - intros Hl. set (e := St (0 + length s) (rev s ++ []) []).
       assert (V : via (St 0 [] s) s e) by (unfold via, e; cbn [after pos before]; rewrite app_nil_r; auto).
-      destruct (ends_complete (Grp 1 NUM_BODY) eq_refl _ _ _ [] V Hl) as (c' & Hin). exists e, c'. split; [exact Hin | reflexivity]. }
+      destruct (ends_complete X Hp _ _ _ [] V Hl) as (c' & Hin). exists e, c'. split; [exact Hin | reflexivity]. }
   rewrite <- Hiff. destruct (flat_map _ _); split; intros H; try reflexivity; try discriminate H; congruence.
 Qed.
+
+Theorem num_accepts s : accepts cm_RE_NUM s = true <-> float_grammar s.
+Proof. rewrite <- L_num_body, num_shape. apply (anchored_accepts (Grp 1 NUM_BODY)). reflexivity. Qed.
 Print Assumptions num_accepts.
 
 Example float_examples : float_grammar [45; 49; 46; 53; 101; 43; 51]%N /\ ~ float_grammar [49; 46]%N.
